@@ -69,8 +69,10 @@ def read_text(p, limit=6000):
         return ''
 
 
-def run_harness(v, args, seed, timeout):
-    rc, out = sh([harness_bin('c19')] + [str(a) for a in args], timeout=timeout, env={'VERIF_SEED': str(seed)})
+def run_harness(v, args, seed, timeout, work=None):
+    env = {'VERIF_SEED': str(seed)}
+    if work: env['VERIF_WORK'] = work
+    rc, out = sh([harness_bin('c19')] + [str(a) for a in args], timeout=timeout, env=env)
     if rc != 0:
         v.obligation('harness c19 %s ran' % args[0], False, out[-800:])
     return [l for l in out.splitlines() if '\t' in l]
@@ -117,6 +119,16 @@ def main(argv):
         else:
             n, per_family, budget = (8, 4, 75) if tier == 'quick' else (64, 24, 900)
             lines = run_harness(v, ['run', n, per_family, budget] + [d for d in CORPUS_DIRS if os.path.isdir(d)], seed, budget + 600)
+    # a broken side condition (new / edited iteration site, proof that no longer checks): extended repetition search over the
+    # generated shapes only (several definitions of one intrinsic family / opcode / name, blocks of locals, clashes, enums ...),
+    # 16 launches x 8 inputs per family, other seed -- a two-way hash order then goes unseen with probability < 2^-15 per input
+    site_alarm = classes is not None and any(c[0] == 'Unclassified' for c in classes)
+    extended = ''
+    if h_ok and not replay and (site_alarm or not proofs_ok) and not any(l.startswith('ORACLE-FAIL') for l in lines):
+        n2, per2, budget2 = (16, 8, 150) if tier == 'quick' else (64, 24, 600)
+        xl = run_harness(v, ['run', n2, per2, budget2], seed + 7919, budget2 + 600, work=os.path.join(WORK, 'C19x'))
+        extended = ' | extended search: ' + ' '.join(l.split('\t', 1)[1] for l in xl if l.startswith('STATS'))[:600]
+        lines += [l for l in xl if not l.startswith('STATS')]
     cases, kinds, meta, fails = [], [], [], []
     for l in lines:
         p = l.split('\t')
@@ -205,18 +217,17 @@ def main(argv):
     for k in kinds: hist[k] = hist.get(k, 0) + 1
     shapes = {}
     for s in sites: shapes[s.get('shape', '?')] = shapes.get(s.get('shape', '?'), 0) + 1
-    m = re.search(r'launches=(\d+)', stats)
     v.coverage.update({
-        'evaluations': int(m.group(1)) if m else 0,
+        'evaluations': sum(int(x) for x in re.findall(r'launches=(\d+)', stats + extended)),
         'distinct_nontrivial': distinct_count([c for c, k in zip(cases, kinds) if k == 'RUN']),
         'rule': 'evaluations = process launches of truth-cli (steps x launches x inputs); an input is a directory of files and a list of command lines '
                 '(compile with --output-debug-info, decompile with/without mapfiles, recompile) for truanm/trustd/trumsg/truecl; generated families with >= 2 '
                 'competing entries in some hash map (register clashes, exhausted scratch registers, several mapfile enums / bad enum signatures / similar enum '
-                'names, several consts, scripts, opcodes, mapfiles, errors) plus every input of corpus/, findings/repro and the repository test binaries; '
+                'names, several consts, scripts, opcodes, mapfiles, errors; both forms of the decrement-jump intrinsic and duplicated intrinsics in one language with `times` loops; the same opcode / name in the ECL and timeline sections of one mapfile, with and without signature errors; blocks of two or more same-typed locals followed by further locals and temporaries) plus every input of corpus/, findings/repro and the repository test binaries; '
                 'distinct = distinct digest vectors of the RUN cases',
         'traces_validated_against_impl': len(cases),
         'case_kinds': hist,
-        'generator_stats': stats,
+        'generator_stats': stats + extended,
         'sites': len(sites), 'site_shapes': shapes,
         'unsafe_sites': ['%s:%d %s' % (s['file'], s['line'], s['tag']) for s in unsafe],
         'samples': [{'kind': k, 'case': c[:300], 'input': mm[1]} for k, c, mm in list(zip(kinds, cases, meta))[:2] + list(zip(kinds, cases, meta))[-2:]],
